@@ -372,6 +372,11 @@ def r3(ctx):
             sinks += 1
     if sinks == 0:
         ctx.note("num_processors is never used to size a pool")
+    # ... and it is not wired into another hyper-parameter by the front ends (min_cluster_size=num_processors would make the result
+    # depend on the worker count)
+    from .plumb import plumb
+    plumb(ctx, ["num_processors", "min_cluster_size", "num_clusters", "window_size", "iteration_limit", "sparsity_weight", "biased_covariance",
+                "min_meaningful_covariance"])
     # environment reads
     from .c20 import POOL_CTORS
     env_reads = []
